@@ -191,7 +191,7 @@ func buildWorld() {
 		{Type: "long-args", Args: []string{string(long), "tail"}, Body: make([]byte, 100)}}}}
 }
 
-// P returns the named party: X1..X4, E1..E3, EZ1, EZ2, EC1, EC2, PE1, PR1, R1..R8, A1..A3, G1, G2, S1, S2, U0..U4, and
+// P returns the named party: X1..X4, E1..E3, EZ1, EZ2, EC1, EC2, PE1, PR1, R1..R8, RN1, A1..A3, G1, G2, S1, S2, U0..U4, and
 // XN<anything>: further native parties made on demand (for very long lists).
 func P(name string) *Party {
 	worldOnce.Do(buildWorld)
